@@ -126,7 +126,7 @@ fn metamorphic(c: &mut Cmp, s: &SlicedPacket, l: &LaxSlicedPacket) {
         (None, None) => {}
         (Some(p), Some(q)) => {
             c.eq("strict-vs-lax", "ether_payload()", (q.ether_type, q.payload.as_ptr(), q.payload.len()), (p.ether_type, p.payload.as_ptr(), p.payload.len()));
-            c.eq("strict-vs-lax", "ether_payload().len_source", q.len_source == p.len_source || q.len_source == LenSource::Slice, true);
+            c.eq("strict-vs-lax", "ether_payload().len_source", q.len_source, p.len_source);
             c.eq("strict-vs-lax", "ether_payload().incomplete", q.incomplete, false);
         }
         (a, b2) => c.fail("strict-vs-lax", "ether_payload()", format!("strict {} / lax {}", if a.is_some() { "Some" } else { "None" }, if b2.is_some() { "Some" } else { "None" })),
